@@ -34,7 +34,8 @@ type config struct {
 	PreStored int    `json:"pairings_already_stored"`
 	Split     string `json:"frame_split_policy"`
 	BigPut    int    `json:"put_value_bytes"`
-	AccID     string `json:"stored_accessory_id,omitempty"` // a uuid file already in the storage (e.g. written by an older version / another tool)
+	TLVStyle  string `json:"controller_tlv_style,omitempty"` // item order / unknown items as another conformant controller may send them
+	AccID     string `json:"stored_accessory_id,omitempty"`  // a uuid file already in the storage (e.g. written by an older version / another tool)
 	seed      int64
 }
 
@@ -178,6 +179,7 @@ func runConfig(c config) {
 		return
 	}
 	cn.Timeout = 10 * time.Second
+	cn.TLVStyle, cn.StyleRand = c.TLVStyle, rnd
 	s, err := cn.PairSetup(me, a.Code(), rnd)
 	cn.Close()
 	if err != nil {
@@ -233,6 +235,7 @@ func runConfig(c config) {
 	}
 	defer vc.Close()
 	vc.Timeout = 10 * time.Second
+	vc.TLVStyle, vc.StyleRand = c.TLVStyle, rnd
 	if _, err := vc.PairVerify(me, s.AccessoryLTPK, s.AccessoryID, rnd); err != nil {
 		fail(c, "verify:"+stageSig(err), "pair-verify failed: "+err.Error(), nil)
 		return
@@ -418,6 +421,7 @@ func main() {
 		if rnd.Intn(7) == 0 {
 			c.AccName = "Żółw é " + fmt.Sprint(i)
 		}
+		c.TLVStyle = []string{"", "", "shuffled", "extra-items", "both"}[rnd.Intn(5)]
 		switch rnd.Intn(4) {
 		case 0: // lower-case id
 			c.AccID = fmt.Sprintf("%02x:%02x:%02x:%02x:%02x:%02x", rnd.Intn(256), rnd.Intn(256), rnd.Intn(256), rnd.Intn(256), rnd.Intn(256), rnd.Intn(256))
@@ -442,6 +446,7 @@ func main() {
 		r.Nontrivial(fmt.Sprintf("%+v", c))
 		r.Distinct("controller_id_length", fmt.Sprint(len(c.CtrlID)))
 		r.Distinct("frame_split_policy", c.Split)
+		r.Distinct("controller_tlv_style", c.TLVStyle)
 		r.SampleAt(i, func() interface{} { return c })
 		ch <- c
 	}
